@@ -22,6 +22,13 @@ class Undecided(Exception):
     pass
 
 
+class OrderFail(Undecided):
+    def __init__(self, p, x):
+        Undecided.__init__(self, "cannot order %r vs %r" % (p, x))
+        self.p = p
+        self.x = x
+
+
 VARLEN = {}
 _fresh = itertools.count()
 
@@ -321,7 +328,19 @@ def piece_slice(p, delta, ln, F):
     if k == "x":
         return (xpiece(ln, tuple((a, o + delta) for a, o in p[2])),)
     if k == "i":
-        return (("i", p[1], ln, bslice(p[3], delta, ln, F), bslice(p[4], delta, ln, F)),)
+        F1 = F.copy()
+        F1.add_cond(p[1])
+        F0 = F.copy()
+        F0.add_cond(neg_cond(p[1]))
+        if F1.inconsistent():
+            return bslice(p[4], delta, ln, F0)
+        if F0.inconsistent():
+            return bslice(p[3], delta, ln, F1)
+        a = bslice(p[3], delta, ln, F1)
+        b = bslice(p[4], delta, ln, F0)
+        if a == b:
+            return a
+        return (("i", p[1], ln, a, b),)
     if k == "m":
         _, var, lo, hi, el, t = p
         q = delta.div_sym(el)
@@ -399,11 +418,39 @@ def binst(t, var, val, F):
     return bsubst(t, None, {var: lin(val)}, F)
 
 
-def bslice(b, lo, ln, F):
+def bslice(b, lo, ln, F, depth=0):
+    """bytes [lo, lo+ln) of b; where a position cannot be ordered against a piece
+    boundary the result is a conditional piece (case split on the comparison)."""
+    try:
+        return _bslice(b, lo, ln, F)
+    except OrderFail as e:
+        if depth >= 4:
+            raise
+        c = ("lt", lin(e.p) - lin(e.x))
+        F1 = F.copy()
+        F1.add_cond(c)
+        F2 = F.copy()
+        F2.add_cond(neg_cond(c))
+        if F1.inconsistent():
+            return bslice(b, lo, ln, F2, depth + 1)
+        if F2.inconsistent():
+            return bslice(b, lo, ln, F1, depth + 1)
+        r1 = bslice(b, lo, ln, F1, depth + 1)
+        r2 = bslice(b, lo, ln, F2, depth + 1)
+        if r1 == r2:
+            return r1
+        return (("i", c, lin(ln), r1, r2),)
+
+
+def _bslice(b, lo, ln, F):
     lo = lin(lo)
     ln = lin(ln)
     if ln.is_const() and ln.c == 0:
         return ()
+    if len(b) == 1 and b[0][0] == "x":
+        # single plain piece: the sub-range is the same atoms at shifted offsets
+        # (range checks are separate obligations of the accessing primitive)
+        return bnorm((xpiece(ln, tuple((a, o + lo) for a, o in b[0][2])),), F)
     out = ()
     acc = ZERO
     end = lo + ln
@@ -414,20 +461,24 @@ def bslice(b, lo, ln, F):
         if F.le(pend, lo):
             acc = pend
             continue
+        if not F.prove_ge(pend - lo - 1) and not (pl.is_const() and pl.c == 0):
+            raise OrderFail(lo, pend)
         if F.le(end, acc):
             break
+        if not F.prove_ge(end - acc - 1):
+            raise OrderFail(acc, end)
         if F.le(acc, lo):
             s = lo
         elif F.le(lo, acc):
             s = acc
         else:
-            raise Undecided("cannot order %r vs %r" % (lo, acc))
+            raise OrderFail(lo, acc)
         if F.le(end, pend):
             e = end
         elif F.le(pend, end):
             e = pend
         else:
-            raise Undecided("cannot order %r vs %r" % (end, pend))
+            raise OrderFail(end, pend)
         if not F.prove_ge(e - s):
             raise Undecided("cannot order slice [%r,+%r) against piece [%r,%r)" % (lo, ln, acc, pend))
         out = out + piece_slice(p, s - acc, e - s, F)
@@ -619,7 +670,21 @@ def bnorm(b, F):
             elif bequal_syn(p[3], p[4]):
                 out.extend(p[3])
             else:
-                out.append(p)
+                F1 = F.copy()
+                F1.add_cond(c)
+                F0 = F.copy()
+                F0.add_cond(neg_cond(c))
+                if F1.inconsistent():
+                    out.extend(bnorm(p[4], F0))
+                elif F0.inconsistent():
+                    out.extend(bnorm(p[3], F1))
+                else:
+                    a = bnorm(p[3], F1)
+                    b = bnorm(p[4], F0)
+                    if a == b:
+                        out.extend(a)
+                    else:
+                        out.append(("i", c, p[2], a, b))
     return tuple(out)
 
 
@@ -629,8 +694,12 @@ def bequal_syn(a, b):
 
 def _find_index_cond(t, var):
     for p in t:
-        if p[0] == "i" and var in csyms(p[1]):
-            return p[1]
+        if p[0] == "i":
+            if var in csyms(p[1]) and p[1][0] in ("eq", "ne", "lt", "ge"):
+                return p[1]
+            c = _find_index_cond(p[3], var) or _find_index_cond(p[4], var)
+            if c:
+                return c
         if p[0] == "x":
             for a, o in p[2]:
                 if a[0] in ("E", "D"):
@@ -643,32 +712,39 @@ def _find_index_cond(t, var):
 def _split_map_ite(p, F):
     _, var, lo, hi, el, t = p
     c = _find_index_cond(t, var)
-    if c is None or c[0] not in ("eq", "ne"):
+    if c is None:
         return None
-    # c: (eq, L(var)) ; find the value of var making it true
     l = c[1]
     v = Lin.sym(var)
     co = l.terms().get((var,), 0)
     if co not in (1, -1):
         return None
-    val = (v * co - l) * co  # var == val
+    val = (v * co - l) * co  # l == 0  <=>  var == val
     if var in val.symbols():
         return None
-    if F.prove_eq(val - lo):
-        a = binst(t, var, lo, F)
+
+    def part(a, b, extra):
         F2 = F.copy()
-        F2.add_ge(v - lo - 1)
-        F2.add_ge(hi - 1 - v)
-        rest = _mkmap(var, lo + 1, hi, el, bnorm(t, F2), F)
-        return tuple(a) + tuple(rest)
-    if F.prove_eq(val - (hi - 1)):
-        a = binst(t, var, hi - 1, F)
-        F2 = F.copy()
-        F2.add_ge(v - lo)
-        F2.add_ge(hi - 2 - v)
-        rest = _mkmap(var, lo, hi - 1, el, bnorm(t, F2), F)
-        return tuple(rest) + tuple(a)
-    return None
+        F2.add_ge(v - a)
+        F2.add_ge(b - 1 - v)
+        for e in extra:
+            F2.add_cond(e)
+        return _mkmap(var, a, b, el, bnorm(t, F2), F)
+
+    if c[0] in ("eq", "ne"):
+        if F.prove_eq(val - lo):
+            a = binst(t, var, lo, F)
+            return tuple(a) + tuple(part(lo + 1, hi, []))
+        if F.prove_eq(val - (hi - 1)):
+            a = binst(t, var, hi - 1, F)
+            return tuple(part(lo, hi - 1, [])) + tuple(a)
+        return None
+    # ('lt', l): l < 0 ; ('ge', l): l >= 0 ; with l = co*var - co*val
+    # co=+1: lt <=> var < val (split at val) ; co=-1: lt <=> var > val (split at val+1)
+    split = val if co == 1 else val + 1
+    if not (F.le(lo, split) and F.le(split, hi)):
+        return None
+    return tuple(part(lo, split, [])) + tuple(part(split, hi, []))
 
 
 # ------------------------------------------------------------------ xor
